@@ -22,7 +22,8 @@ BIT = {"cpu_serial": 1, "cpu_openmp": 2, "opencl": 4, "cuda": 8}
 FLOORS = {"sources": 100, "kernel_calls": 2500, "hit_counters_checked": 100000, "n_zero_calls": 150,
           "n_not_multiple_of_block": 150, "multi_block_kernels": 20, "include_lines": 30, "context_lines": 100,
           "passthrough_lines_checked": 2000, "nested_block_cases": 8, "launch_geometries_seen": 100,
-          "expression_limits": 60, "kernels_inside_included_file": 40}
+          "expression_limits": 60, "kernels_inside_included_file": 40,
+          "signed_index_arithmetic_checked": 50000}
 FLOORS.update({"target:" + t: 300 for t in TARGETS})
 RULE = ("generated kernel sources from the annotation vocabulary (1-3 vectorize_over/end_vectorize blocks, "
         "limits that are identifiers or blank-free expressions, the whole kernel optionally inside an included file, "
@@ -78,7 +79,7 @@ def gen_source(rng, kname, folder, nested=False):
     plain(f"/* unannotated comment {uid} a */")
     L.append("/*gpukern*/")
     args = [f"/*gpuglmem*/ int32_t* /*restrict*/ hits{b}" for b in range(nb)]
-    L.append(f"void {kname}({', '.join(args)}, /*gpuglmem*/ int32_t* flags, const int n, const int m1, const int m2){{")
+    L.append(f"void {kname}({', '.join(args)}, /*gpuglmem*/ double* dv, /*gpuglmem*/ int32_t* flags, const int n, const int m1, const int m2){{")
     plain(f"  int unann_{uid} = 3; (void)unann_{uid};")
 
     def ctx_line(inside):
@@ -108,6 +109,9 @@ def gen_source(rng, kname, folder, nested=False):
             meta["expr_limits"] = meta.get("expr_limits", 0) + 1
         L.append(f"  int ii{b}; //vectorize_over ii{b} {lim}")
         plain(f"    hits{b}[ii{b}] += helper_{uid}(0); /* body {uid} {b} */")
+        if b == 0:
+            # the index takes part in signed arithmetic (a centred coordinate): same result on every target
+            plain(f"    dv[ii{b}] = (ii{b} - 5) * 0.5 + (ii{b} - n / 2 < 0 ? -1000.0 : 0.0);")
         for _ in range(rng.randint(0, 2)):
             ctx_line(True)
         if nested and b == 0:
@@ -137,7 +141,8 @@ def gen_source(rng, kname, folder, nested=False):
 
 def kernel_desc(kname, nb):
     args = [xo.Arg(xo.Int32, pointer=True, name=f"hits{b}") for b in range(nb)]
-    args += [xo.Arg(xo.Int32, pointer=True, name="flags"), xo.Arg(xo.Int32, name="n"), xo.Arg(xo.Int32, name="m1"),
+    args += [xo.Arg(xo.Float64, pointer=True, name="dv"),
+             xo.Arg(xo.Int32, pointer=True, name="flags"), xo.Arg(xo.Int32, name="n"), xo.Arg(xo.Int32, name="m1"),
              xo.Arg(xo.Int32, name="m2")]
     return {kname: xo.Kernel(args=args, n_threads="n")}
 
@@ -211,6 +216,8 @@ def run_case(w, rng):
                 for b, hh in enumerate(hits):
                     kw[f"hits{b}"] = _wrap(target, hh)
                 kw["flags"] = _wrap(target, flags)
+                dv = np.full(n + GUARD, 7777.0)
+                kw["dv"] = _wrap(target, dv)
                 g0 = len(fakegpu.launch_log)
                 try:
                     ctx.kernels[uid](**kw)
@@ -238,6 +245,12 @@ def run_case(w, rng):
                         viol(f"block-body-not-once-per-index|{target}", f"{case}: block {b} index {int(bad[0])} executed {int(hh[bad[0]])} times ({len(bad)} indices wrong)")
                     if np.any(hh[n:] != 0):
                         viol(f"block-body-ran-past-n|{target}", f"{case}: block {b} touched indices >= n: {np.nonzero(hh[n:])[0][:4] + n}")
+                ii = np.arange(n)
+                want_dv = (ii - 5) * 0.5 + np.where(ii - n // 2 < 0, -1000.0, 0.0)
+                w.count("signed_index_arithmetic_checked", n)
+                if not np.array_equal(dv[:n], want_dv) or np.any(dv[n:] != 7777.0):
+                    badi = int(np.nonzero(dv[:n] != want_dv)[0][0]) if n and np.any(dv[:n] != want_dv) else n
+                    viol(f"index-arithmetic-differs|{target}", f"{case}: dv[{badi}] = {dv[badi]!r}, expected {(want_dv[badi] if badi < n else 7777.0)!r}")
                 ran = target.startswith("cpu") or n > 0
                 want0 = (meta["out_bits"][target] if ran else 0) | (meta["in_bits"][target] if n > 0 else 0)
                 if int(flags[0]) != want0:
